@@ -3,6 +3,7 @@ import TT.Spec.Transform
 import TT.Transform.RootAttach
 import TT.Transform.Misc
 import TT.Transform.Traces
+import TT.Transform.Slash
 import TT.Spec.HeadRulesPinned
 import TT.Spec.Pinned
 namespace Driver
@@ -63,7 +64,16 @@ def applyT (c : TCall) (t : Tree) : Except Err (Option Tree) :=
     let keep := match c.get "keep" with
       | some k => (k.splitOn "!").filterMap decS
       | none => []
-    .ok (some (ptbDeleteTraces { keep := keep, keepall := c.has "keepall", keepcoindex := c.has "keepcoindex" } t))
+    -- `slash` as a flag: annotate for every trace label; `slash=A,B`: `params['slash'].split(',')`
+    let slash : Option (List Str) := match c.get "slash" with
+      | none => none
+      | some "" => some []
+      | some v => some ((v.splitOn ",").map String.toList)
+    match ptbDeleteTracesSlash { keep := keep, keepall := c.has "keepall", keepcoindex := c.has "keepcoindex" } slash t with
+    | .ok r => .ok (some r)
+    | .error "ValueError" => .error .valueError
+    | .error "IndexError" => .error .indexError
+    | .error _ => .error .other
   | "delete_terminal" => .ok (some (deleteTerminal t (((c.get "k").bind String.toNat?).getD 0)))
   | _ => .error .other
 
